@@ -151,6 +151,40 @@ def HistAppended(c, Hv, key, kind, value=None):
          patterns=[h.has(H, k)]))
 
 
+def HistAppendedN(c, Hv, key, specs):
+  """Exactly len(specs) fresh entries were appended, in order, to the history list of `key`.
+  specs: [(kind, value-or-None, extra(entry ref) -> Bool or None)]."""
+  h0, h = c.old, c.heap
+  H = ref(Hv)
+  k = z3.Const('ha_k', Val)
+  i = z3.Int('ha_i')
+  l = hist_list(h, H, key)
+  l0 = hist_list(h0, H, key)
+  had = h0.has(H, key)
+  n0 = z3.If(had, h0.len(l0), z3.IntVal(0))
+  conj = [
+      h.has(H, key), is_VRef(h.dget(H, key)), cls_is(h.cls(l), 'list'),
+      z3.If(had, l == l0, l >= h0.alloc),
+      h.len(l) == n0 + len(specs),
+      FA([i], z3.Implies(z3.And(0 <= i, i < n0), h.elt(l, i) == h0.elt(l0, i)),
+         patterns=[h.elt(l, i)]),
+      counter(h) == counter(h0) + len(specs),
+      FA([k], z3.Implies(k != key, z3.And(h.has(H, k) == h0.has(H, k),
+                                          h.dget(H, k) == h0.dget(H, k))),
+         patterns=[h.has(H, k)])]
+  for j, (kind, value, extra) in enumerate(specs):
+    e = h.elt(l, n0 + j)
+    r = ref(e)
+    conj += [is_VRef(e), r >= h0.alloc, r < h.alloc, cls_is(h.cls(r), 'HistoryEntry'),
+             h.fld(r, 'sequence_id') == VInt(counter(h0) + j),
+             h.fld(r, 'param_name') == key, h.fld(r, 'kind') == kind]
+    if value is not None:
+      conj.append(h.fld(r, 'new_value') == value)
+    if extra is not None:
+      conj.append(extra(r))
+  return z3.And(conj)
+
+
 def _hist_mod(c):
   h0 = c.old
   H = ref(c['self'])
@@ -195,3 +229,22 @@ _add_contract('history.History.add_deleted_value', 'History.add_deleted_value', 
               lambda c: DELETED)
 _add_contract('history.History.add_updated_tags', 'History.add_updated_tags', CK_UPDATE_TAGS,
               None, extra_req=lambda c: isref(c.old, c['updated_tags'], 'set'))
+
+
+# --- suspend_tracking ---------------------------------------------------------------------------
+def _enabled(h):
+  return h.fld(ref(TRACKING_STATE), 'enabled')
+
+
+contract(
+    'history.suspend_tracking', F, 'suspend_tracking', cm=True,
+    requires=lambda c: GlobalsInv(c.old),
+    enter_ensures=lambda c: _enabled(c.heap) == VBool(z3.BoolVal(False)),
+    # whatever the body did (nested blocks included), the value found on entry is restored
+    exit_post=lambda c: _enabled(c.heap) == _enabled(c.old),
+    exc_rel=lambda c, E, Fx: z3.And(Fx.val == E.val, Fx.cls_term == E.cls_term),
+    mod=lambda c: [ref(TRACKING_STATE)], writes=('enabled',), allocates=False,
+    props=('C16',),
+    note='tracking is disabled in the body and the previous value is restored on every exit '
+         '(normal or exceptional); nesting follows by composition; exceptions propagate unchanged',
+)
